@@ -113,7 +113,8 @@ def exS (f : β → String) : Except StateErr β → String
   | .ok b => "ok " ++ f b
   | .error e => "err " ++ e.name
 
-def toNumF (x : Float) : Json := .num "" x.toBits.toNat
+/-- `serde_json` writes a finite double as a number and NaN / ±∞ as `null` -/
+def toNumF (x : Float) : Json := if x.isNaN || x.isInf then .null else .num "" x.toBits.toNat
 def ofBitsF (n : Nat) : Float := Float.ofBits n.toUInt64
 
 /-- JSON printed for comparison: integer numbers by lexeme, other numbers by bit pattern (the model does
